@@ -607,6 +607,9 @@ impl Prop for C18 {
         let mut runs = 0u32;
         let mut inside = 0u32;
         loop {
+          if std::env::var_os("VERIF_C18_TRACE").is_some() {
+            eprintln!("run {runs} schedule {schedule:?}");
+          }
           let out = execute(p, &schedule, *max_preemptions);
           runs += 1;
           POINTS.fetch_add(out.points, std::sync::atomic::Ordering::Relaxed);
